@@ -305,6 +305,13 @@ func (d *driver) explore(prog *interp.Program, insts []instance) []*result {
 				if d.maxSec > 0 {
 					in.h.MaxSeconds = d.maxSec
 				}
+				if in.h.MaxSeconds == 0 {
+					// default per-instance deadline: a run-away instance is reported as inconclusive
+					in.h.MaxSeconds = 300
+					if d.tier == "thorough" {
+						in.h.MaxSeconds = 1800
+					}
+				}
 				if in.h.MaxSeconds > 0 {
 					lim.Deadline = time.Now().Add(time.Duration(in.h.MaxSeconds) * time.Second)
 				}
